@@ -107,3 +107,17 @@ package cty
 //@   loop 3 invariant (MapC<Any~Unit>.ok (select $H<MapC<Any~Unit>> newMarks))
 //@   loop 4 invariant (forall ((k Any)) (= (select (MapC<Any~Unit>.dom (select $H<MapC<Any~Unit>> newMarks)) k) (or (select (marks_of val) k) (in_any_valmarks srcs $i@3 k) (select $visited k))))
 //@   loop 4 invariant (MapC<Any~Unit>.ok (select $H<MapC<Any~Unit>> newMarks))
+//
+// Deep marks. UnmarkDeep and ContainsMarked are implemented with the generic
+// transform/walk machinery; here they are given their documented meaning in
+// terms of the uninterpreted views deep_marked / deep_unmark / deep_marks
+// (assumed; see DESIGN.md C04/C19).
+//@ func (cty.Value).ContainsMarked
+//@   trusted
+//@   ensures (= result (deep_marked val))
+//
+//@ func (cty.Value).UnmarkDeep
+//@   trusted
+//@   fresh result.1
+//@   ensures (= result.0 (deep_unmark val))
+//@   ensures (and (MapC<Any~Unit>.ok (select $H<MapC<Any~Unit>> result.1)) (= (MapC<Any~Unit>.dom (select $H<MapC<Any~Unit>> result.1)) (deep_marks val)))
